@@ -1,5 +1,5 @@
 (* Codec/Util.v — generic lemmas for the codec proofs: the [safe] predicate (a result is a value
-   satisfying P or an error, never Panic / OutOfFuel), loops with an invariant and a decreasing measure,
+   satisfying P or the error EMalformed, never Panic / OutOfFuel), loops with an invariant and a decreasing measure,
    iteration counts with a potential function, slices and offsets. *)
 From LS Require Import Base.Bytes Base.BytesProofs Base.Res Codec.Varint Codec.Loop Merge.Model Codec.Wire
   Codec.Custom Codec.VarintProofs.
@@ -12,10 +12,12 @@ Ltac Zify.zify_post_hook ::= Z.div_mod_to_equations.
 Definition safe {A : Type} (P : A -> Prop) (r : res A) : Prop :=
   match r with
   | Ok a => P a
-  | Err _ => True
+  | Err e => e = EMalformed
   | Panic => False
   | OutOfFuel => False
   end.
+
+Ltac triv := first [exact I | reflexivity].
 
 Lemma safe_bind {A B : Type} (P : A -> Prop) (Q : B -> Prop) (r : res A) (f : A -> res B) :
   safe P r -> (forall a, P a -> safe Q (f a)) -> safe Q (bind r f).
@@ -26,7 +28,11 @@ Lemma safe_weaken {A : Type} (P Q : A -> Prop) (r : res A) :
 Proof. destruct r; cbn; auto. Qed.
 
 Lemma safe_E {A : Type} (P : A -> Prop) : safe P (@E A).
-Proof. exact I. Qed.
+Proof. reflexivity. Qed.
+
+(* a safe computation followed by an error is that error *)
+Lemma safe_then_E {A B : Type} (P : A -> Prop) (r : res A) : safe P r -> bind r (fun _ => @E B) = E.
+Proof. destruct r as [a|e| |]; cbn; intros H; try contradiction; [reflexivity|subst; reflexivity]. Qed.
 
 Lemma safe_not_panic {A : Type} (P : A -> Prop) (r : res A) :
   safe P r -> r <> Panic /\ r <> OutOfFuel.
